@@ -185,8 +185,10 @@ func (s *State) builtin(name string, args []Value, call *ssa.Call) (Value, bool)
 			case StrV:
 				tmp = s.bytesOf(src)[:n]
 			case SliceV:
+				s.monitor(s.frame(), src.Obj, src.Off, n*elemN, false)
 				tmp = append([]Value(nil), s.loadLeaves(PtrV{Obj: src.Obj, Off: src.Off}, n*elemN)...)
 			}
+			s.monitor(s.frame(), dst.Obj, dst.Off, n*elemN, true)
 			o := s.wobj(dst.Obj)
 			if o.Virtual && dst.Off+n*elemN > len(o.Cells) {
 				o = s.materialize(dst.Obj, dst.Off+n*elemN)
@@ -259,6 +261,7 @@ func (s *State) doAppend(args []Value, call *ssa.Call) Value {
 	dl := s.sliceLen(dst)
 	dc := int(s.concretize(dst.Cap, "append cap"))
 	if dl+addN <= dc && dst.Obj != 0 {
+		s.monitor(s.frame(), dst.Obj, dst.Off+dl*elemN, addN*elemN, true)
 		o := s.wobj(dst.Obj)
 		copy(o.Cells[dst.Off+dl*elemN:], add)
 		return SliceV{Obj: dst.Obj, Off: dst.Off, Len: c64(dl + addN), Cap: dst.Cap}
@@ -280,6 +283,7 @@ func (s *State) doAppend(args []Value, call *ssa.Call) Value {
 		cells = append(cells, zl...)
 	}
 	id := s.newObject(cells, "append")
+	s.heap[id].Own = s.frame().info.own
 	s.heap[id].Elem = et
 	return SliceV{Obj: id, Off: 0, Len: c64(dl + addN), Cap: c64(nc)}
 }
@@ -558,7 +562,7 @@ func (s *State) enabled(t *Thread, w waitSpec) bool {
 		return s.cellInt(w.p, 0) == 0
 	case 5:
 		for _, o := range s.threads {
-			if o != t && !o.done {
+			if o != t && !o.done && o != s.exiting {
 				return false
 			}
 		}
@@ -605,10 +609,17 @@ func (s *State) waits() map[int]waitSpec {
 
 // reschedule picks the next thread to run among the enabled ones (forking).
 // Returns true if the current thread continues with its pending operation.
-func (s *State) reschedule() bool {
+func (s *State) reschedule() bool { return s.rescheduleEx(nil) }
+
+// rescheduleEx: exiting (if non-nil) is a thread that is about to exit: it is
+// not a candidate, and it is marked done only after the (possibly forking)
+// choice has been made, so that sibling states can re-execute its Return.
+func (s *State) rescheduleEx(exiting *Thread) bool {
+	s.exiting = exiting
+	defer func() { s.exiting = nil }()
 	var cands []int
 	for i, t := range s.threads {
-		if t.done {
+		if t.done || t == exiting {
 			continue
 		}
 		w, parked := s.waits()[t.id]
@@ -622,7 +633,7 @@ func (s *State) reschedule() bool {
 	if len(cands) == 0 {
 		alive := false
 		for _, t := range s.threads {
-			if !t.done {
+			if !t.done && t != exiting {
 				alive = true
 			}
 		}
@@ -671,10 +682,13 @@ func (s *State) spawn(fn Value, args []Value) {
 }
 
 func (s *State) threadExit(th *Thread) {
+	s.rescheduleEx(th) // forks happen here, before the exit is applied
+	if s.dead {
+		return
+	}
 	th.done = true
 	th.frames = nil
 	delete(s.waits(), th.id)
-	s.reschedule()
 }
 
 func regSync() {
@@ -774,6 +788,7 @@ func (s *State) lockEvent(th *Thread, p PtrV, kind int, acquire bool) {
 		th.locks = append(th.locks, id)
 		return
 	}
+	th.epoch++
 	for i := len(th.locks) - 1; i >= 0; i-- {
 		if th.locks[i] == id {
 			th.locks = append(th.locks[:i:i], th.locks[i+1:]...)
